@@ -181,6 +181,7 @@ func (r *setRun[T]) show(s mapset.Set[T]) string {
 }
 
 type setRun[T comparable] struct {
+	handles int
 	c     Case
 	d     *dom[T]
 	vars  [NV]mapset.Set[T]
@@ -1069,8 +1070,32 @@ func runSetOf[T comparable](c Case, o *vk.Obs, d *dom[T]) string {
 	for i, op := range c.Ops {
 		o.Step() // interleaved execution (vk.Interleave) switches to the other case here
 		r.step = i
+		// another handle of the destination set: a Set is a map, so a copy of a
+		// non-nil Set value IS the same set, and what a mutator does to the
+		// receiver has to show through it (a by-value helper that calls Add, the
+		// value an earlier Clear returned)
+		var handle mapset.Set[T]
+		mut := op.K == "add" || op.K == "addall" || op.K == "remove" || op.K == "removeall" || op.K == "pop" || op.K == "clear"
+		if mut {
+			handle = r.vars[vi(op.D)]
+		}
 		if msg := r.apply(op); msg != "" {
 			return msg
+		}
+		if cur := r.vars[vi(op.D)]; mut && handle != nil && cur != nil {
+			same := len(handle) == len(cur)
+			if same && c.Elem != elem.F64 {
+				for e := range cur {
+					if !handle.Has(e) {
+						same = false
+						break
+					}
+				}
+			}
+			if !same {
+				return r.errf("%s on the non-nil var%d changed the receiver but not the set itself: another handle of the same set (a copy of the Set value taken before the call) now has %d members, the receiver %d (%v)", op.K, vi(op.D), len(handle), len(cur), r.ref[vi(op.D)])
+			}
+			r.handles++
 		}
 		r.untouched = [NV]bool{true, true, true, true}
 		r.untouched[vi(op.D)] = false
@@ -1107,6 +1132,7 @@ func runSetOf[T comparable](c Case, o *vk.Obs, d *dom[T]) string {
 	o.ClassIf(r.popNonEmpty > 0, "pop_nonempty")
 	o.ClassIf(r.popEmpty > 0, "pop_empty")
 	o.ClassIf(r.ctor > 0, "constructor_alias_probe")
+	o.ClassIf(r.handles > 0, "mutation_seen_through_a_second_handle")
 	o.ClassIf(r.nanCleared > 0, "clear_with_nan_members")
 	o.ClassIf(r.manyOperands > 0, "intersect_5_to_12_operands")
 	o.ClassIf(r.partition > 0, "binary_op_operands_partition_the_universe")
